@@ -25,10 +25,12 @@ Record key := mkKey { kidx : N; kver : N }.
 
 Definition key_eqb (a b : key) : bool := (kidx a =? kidx b) && (kver a =? kver b).
 
-(* KeyData::from_ffi(value): idx = value & 0xffff_ffff, version = (value >> 32) | 1;
-   KeyData::as_ffi = (version << 32) | idx *)
-Definition key_of_raw (r : N) : key := mkKey (N.land r 4294967295) (N.lor (N.shiftr r 32) 1).
-Definition raw_of_key (k : key) : N := N.lor (N.shiftl (kver k) 32) (kidx k).
+(* How the VM moves a key through a register: `Machine::get_as::<HeapIdx / ClosureIdx>(raw)` and `to_value(key)` are
+   transmute_copy of KeyData { idx: u32, version: NonZeroU32 }.  With the pinned toolchain the version occupies the
+   low and the index the high 32 bits of the word (harness `--probe` reports "key_layout":"idx-high"; checks/C12.py
+   fails when that changes).  NB this is NOT KeyData::as_ffi / from_ffi, which put the index low. *)
+Definition key_of_raw (r : N) : key := mkKey (N.shiftr r 32) (N.land r 4294967295).
+Definition raw_of_key (k : key) : N := N.lor (N.shiftl (kidx k) 32) (kver k).
 
 (* ---------------------------------------------------------------------- *)
 (* slotmap basic.rs: struct Slot<T> { u: union { value, next_free }, version }  (version even = vacant)
@@ -49,7 +51,9 @@ Section SlotMap.
     | y :: r, S n' => y :: set_nth r n' x
     end.
 
-  Definition slot_at (m : smap) (i : N) : option slot := nth_error (slots m) (N.to_nat i).
+  (* slots.get(i); the bound test first keeps the lookup cheap for wild indices (raw floats tried as keys) *)
+  Definition slot_at (m : smap) (i : N) : option slot :=
+    if i <? N.of_nat (length (slots m)) then nth_error (slots m) (N.to_nat i) else None.
 
   (* contains_key: slots.get(idx).map_or(false, |slot| slot.version == kd.version) *)
   Definition sm_contains (m : smap) (k : key) : bool :=
@@ -211,11 +215,35 @@ Definition set_store (m : mach) (w : sid) (s : store) : mach :=
 Inductive eop := EAlloc | ERetain | ERelease | EFree | EUse | EProbe | EClose | ERef | EMark (n : N).
 Record event := mkEv { e_store : sid; e_op : eop; e_key : key; e_rc : option N }.
 
+(* decoding of a logged record (kind, idx, version, rc): kind = 0x20|n operation mark, else store bit 0x10 and
+   operation in the low nibble; rc = u64::MAX is H2_INVALID *)
+Definition H2_INVALID : N := 18446744073709551615.
+Definition event_of_tuple (kind idx ver rc : N) : option event :=
+  let rc' := if rc =? H2_INVALID then None else Some rc in
+  let key := mkKey idx ver in
+  if N.testbit kind 5 then Some (mkEv SH (EMark (N.land kind 15)) key rc')
+  else
+    let st := if N.testbit kind 4 then SC else SH in
+    match N.land kind 15 with
+    | 0 => Some (mkEv st EAlloc key rc')
+    | 1 => Some (mkEv st ERetain key rc')
+    | 2 => Some (mkEv st ERelease key rc')
+    | 3 => Some (mkEv st EFree key rc')
+    | 4 => Some (mkEv st EUse key rc')
+    | 5 => Some (mkEv st EProbe key rc')
+    | 6 => Some (mkEv st EClose key rc')
+    | 7 => Some (mkEv st ERef key rc')
+    | _ => None
+    end.
+
+(* what an event does, without the key and the count *)
+Definition shape (e : event) : sid * eop := (e_store e, e_op e).
+
 Definition orc_eqb (a : option N) (b : N) : bool := match a with Some x => x =? b | None => false end.
 
-(* slot-map history of a key: [stale s k] = a key of this store that was live once and has been removed
-   (its slot exists and has moved on to a later version). *)
-Definition stale (s : store) (k : key) : bool :=
+(* slot-map history of a key: [stale s k] = the slot of k exists and has moved on to a later version, i.e. k may
+   have been live once and has been removed (versions only grow): a dangling handle. *)
+Definition stale {V : Type} (s : smap V) (k : key) : bool :=
   match slot_at s (kidx k) with
   | Some sl => kver k <? sver sl
   | None => false
@@ -227,7 +255,8 @@ Definition stale (s : store) (k : key) : bool :=
      stays present with the decremented count, possibly 0, until its free event);
    - free: the object must be present with refcount 0 (so: never freed while referenced, never freed twice);
    - probe: a lookup that is allowed to miss (the VM tries a raw value as a key of this store); hit or miss and
-     the count seen must agree with the model;
+     the count seen must agree with the model, and a miss must not be on a stale key (a handle whose object
+     has been freed: the VM would silently treat a dangling closure handle as "not a closure");
    - ref / mark: informational. *)
 Definition mstep (m : mach) (e : event) : option mach :=
   let s := get_store m (e_store e) in
@@ -273,7 +302,7 @@ Definition mstep (m : mach) (e : event) : option mach :=
   | EProbe =>
       match sm_get s k, e_rc e with
       | Some o, Some r => if r =? orc o then Some m else None
-      | None, None => Some m
+      | None, None => if stale s k then None else Some m
       | _, _ => None
       end
   | ERef => Some m
@@ -407,10 +436,12 @@ Fixpoint drop_closure (fuel : nat) (up : upvalue_oracle) (m : mach) (id : key) :
   match fuel with
   | O => OutOfFuel
   | S fuel' =>
-      let mark := mkEv SC (EMark 0) id (Some 0) in
+      let mark := mkEv SH (EMark 0) id (Some 0) in
       match sm_get (m_cl m) id with
       | None => Panicked [mark; ev SC ERelease id None]
       | Some o =>
+          if orc o =? 0 then Panicked [mark; ev SC ERelease id None]   (* `refcount -= 1` overflows (debug build) *)
+          else
           let rc' := orc o - 1 in
           let m1 := mkMach (sm_set (m_cl m) id (mkObj rc' (oclosed o) (odata o))) (m_hp m) in
           let e0 := [mark; ev SC ERelease id (Some rc')] in
@@ -538,7 +569,7 @@ Fixpoint retain_refs (m : mach) (refs : list (option key * key)) : outcome (mach
   end.
 
 Definition close_upvalues_by_idx (up : upvalue_oracle) (m : mach) (c : key) : outcome (mach * list event) :=
-  let mark := mkEv SC (EMark 2) c (Some 0) in
+  let mark := mkEv SH (EMark 2) c (Some 0) in
   match sm_get (m_cl m) c with
   | None => Panicked (mark :: use_closure m c)
   | Some _ =>
